@@ -66,6 +66,7 @@ func (s *sessionMetadatasState) Create(id string, clientID string, connectedAt i
 	if ok && crdt.IsEntryAdded(&session) {
 		return ErrSessionMetadatasExists
 	}
+	stamp := stampAfter(crdt.GetLastEntryUpdate(&session))
 	session = api.SessionMetadatas{
 		SessionID:   id,
 		ClientID:    clientID,
@@ -73,7 +74,7 @@ func (s *sessionMetadatasState) Create(id string, clientID string, connectedAt i
 		LWT:         lwt,
 		MountPoint:  mountpoint,
 		Peer:        s.peer,
-		LastAdded:   clock(),
+		LastAdded:   stamp,
 	}
 	err := s.set(session)
 	if err != nil {
@@ -105,7 +106,7 @@ func (s *sessionMetadatasState) Delete(id string) error {
 	if !ok || crdt.IsEntryRemoved(&session) {
 		return nil
 	}
-	session.LastDeleted = clock()
+	session.LastDeleted = stampAfter(crdt.GetLastEntryUpdate(&session))
 	err := s.set(session)
 	if err != nil {
 		return err
@@ -185,7 +186,7 @@ func (s *sessionMetadatasState) DeletePeer(peer uint64) error {
 	event := &api.StateBroadcastEvent{SessionMetadatas: []*api.SessionMetadatas{}}
 	for _, session := range sessions {
 		session := session
-		session.LastDeleted = clock()
+		session.LastDeleted = stampAfter(crdt.GetLastEntryUpdate(&session))
 		event.SessionMetadatas = append(event.SessionMetadatas, &session)
 		s.set(session)
 	}
